@@ -27,6 +27,20 @@ def eff_bases(n):
     return tuple(n.__bases__) or (Interface,)
 
 
+class SpecProxy:
+    def __init__(self, spec):
+        self._spec = spec
+
+    def __hash__(self):
+        return hash(self._spec)
+
+    def __eq__(self, other):
+        return other is self or self._spec == other
+
+    def __ne__(self, other):
+        return not self == other
+
+
 class FalsyInterfaceClass(InterfaceClass):
     def __bool__(self):
         return False
@@ -414,6 +428,12 @@ class Graph:
                     ctx.violation('extends', {'S': self.name_of(S), 'T': self.name_of(T),
                                               'isOrExtends': g1, 'extends': g2, 'extends_nonstrict': g3,
                                               'expected': [exp_ioe, exp_ext, exp_ext0]})
+                if (id(S) + id(T)) % 11 == 0:
+                    # T reached through a transparent proxy (an object that hashes and compares like T): same answer
+                    ctx.ev()
+                    ctx.count('isOrExtends_through_a_transparent_proxy')
+                    if bool(S.isOrExtends(SpecProxy(T))) != exp_ioe:
+                        ctx.violation('extends-through-proxy', {'S': self.name_of(S), 'T': self.name_of(T), 'expected': exp_ioe})
         # providedBy / implementedBy forms agree for declaration nodes
         for n in self.nodes:
             if n.kind == 'prov':
